@@ -250,5 +250,34 @@ func WithDeadline(parent context.Context, t time.Time) (context.Context, context
 	return c, k.do
 }
 
+// WithoutCancel: values are kept, cancellation is not: the wrapper chain is cut here.
+//
+//go:norace
+func WithoutCancel(parent context.Context) context.Context {
+	c := &Ctx{Context: context.WithoutCancel(parent)}
+	if S != nil && !S.aborting {
+		t := S.cur
+		t.nobj++
+		c.sid = mix(t.lid, t.nobj, 33)
+		c.w = inW(c.sid)
+	}
+	return c
+}
+
+// ctxOf finds the scheduler's wrapper of ctx: ctx itself, or the nearest wrapper below a
+// context.WithValue layer (which shares its parent's cancellation).
+//
+//go:norace
+func ctxOf(ctx context.Context) *Ctx {
+	if c, ok := ctx.(*Ctx); ok {
+		return c
+	}
+	if ctx == nil {
+		return nil
+	}
+	c, _ := ctx.Value(wrapperKey{}).(*Ctx)
+	return c
+}
+
 func Background() context.Context { return context.Background() }
 func TODO() context.Context       { return context.TODO() }
